@@ -6,6 +6,7 @@ import (
 	"encoding/json"
 	"fmt"
 	"io"
+	"math"
 	"net/http"
 	"net/http/httptest"
 	"runtime"
@@ -31,17 +32,26 @@ type chunkRecorder struct {
 	chunks []string
 }
 
-func (c *chunkRecorder) Header() http.Header         { return c.hdr }
-func (c *chunkRecorder) WriteHeader(int)             {}
-func (c *chunkRecorder) Write(p []byte) (int, error) { c.chunks = append(c.chunks, string(p)); return len(p), nil }
+func (c *chunkRecorder) Header() http.Header { return c.hdr }
+func (c *chunkRecorder) WriteHeader(int)     {}
+func (c *chunkRecorder) Write(p []byte) (int, error) {
+	c.chunks = append(c.chunks, string(p))
+	return len(p), nil
+}
 
 func payloads(c *hk.Ctx) []string {
 	ps := []string{"", "x", "{\"a\":1}", "line1\nline2", "trailing\n", "\n", "\n\n", "a\r\nb", "a\rb", "u v w", "héllo wörld 😀", "data: x", "id: 7\n\nevent: y", " leading space", ":comment-like"}
 	ps = append(ps, strings.Repeat("A", 4096), strings.Repeat("B", 65536)+"\n"+strings.Repeat("C", 10))
+	// text whose structure a "clever" writer could mistake for something else: printf verbs, commas inside long strings
+	// (a writer that folds long lines at a comma), JSON-looking prose
+	prose := func(n int) string {
+		return strings.Repeat("lorem ipsum, dolor sit amet, consectetur; 100% sure, ", n/52+1)[:n]
+	}
+	ps = append(ps, "100% full", "%s %d %v %20 %% %!", `{"text":"`+prose(40000)+`"}`, `{"a":1,"text":"`+prose(100000)+`","b":[1,2,3]}`, prose(33000))
 	n := 60
 	if c.Thorough() {
 		n = 2000
-		ps = append(ps, strings.Repeat("Z", 1<<20))
+		ps = append(ps, strings.Repeat("Z", 1<<20), `{"text":"`+prose(1<<20)+`"}`)
 	}
 	alphabet := []string{"a", "b", "\n", "\n", "\r", " ", ":", "data: ", " ", "é", "{", "}", "\"", "\\"}
 	for i := 0; i < n; i++ {
@@ -86,6 +96,17 @@ func run(c *hk.Ctx) {
 		for _, ty := range []string{"message", ""} {
 			ev := mcp.VerifFormatSSEEvent(ty, []byte(p))
 			c.Emit(map[string]any{"c": "frames.formatSSE", "type": ty, "data": p}, map[string]any{"event": ev}, strings.Contains(p, "\n"), "formatSSE")
+			if !strings.Contains(p, "\r") && p != "" {
+				evs := parseSSE(ev)
+				if len(evs) != 1 || evs[0] != p {
+					got := "<none>"
+					if len(evs) > 0 {
+						got = evs[0]
+					}
+					c.Violate(hk.Violation{Fingerprint: "frames:legacy-sse:format-event-not-transparent", What: "the data lines of an event built by formatSSEEvent do not reassemble to the message",
+						Input: map[string]any{"data_len": len(p), "data_prefix": p[:min(len(p), 60)]}, Observed: map[string]any{"events": len(evs), "first": got[:min(len(got), 120)]}})
+				}
+			}
 		}
 	}
 	stdioStress(c)
@@ -303,7 +324,17 @@ func getStreamStress(c *hk.Ctx) {
 				if (w*per+i)%37 == 5 {
 					payload = strings.Repeat("L", 70000+i) // beyond bufio's 64 KiB token size
 				}
+				if (w*per+i)%41 == 7 {
+					payload = strings.Repeat("lorem ipsum, dolor sit amet; 100% sure, ", 1000) // 40 KiB, commas and percent signs inside one string
+				}
 				var err error
+				if i%13 == 4 {
+					// a notification that cannot be encoded is refused — and must leave nothing behind on the stream
+					if e := f.S.SendNotification(sid, "notifications/message", map[string]interface{}{"level": "info", "data": map[string]interface{}{"bad": math.NaN(), "w": w, "i": i}}); e == nil {
+						c.Violate(hk.Violation{Fingerprint: "frames:get-stream:unencodable-accepted", What: "a notification holding NaN was reported sent", Input: map[string]any{"w": w, "i": i}})
+					}
+					continue
+				}
 				if i%10 == 9 {
 					ctx, cancel := context.WithTimeout(context.Background(), time.Millisecond)
 					_, err = f.S.SendRequest(ctx, sid, &mcp.JSONRPCRequest{JSONRPC: "2.0", Request: mcp.Request{Method: "roots/list"}})
@@ -401,6 +432,9 @@ func legacySSEStress(c *hk.Ctx) {
 	srv := mcp.NewSSEServer("verif-sse", "1.0", mcp.WithSSEServerLogger(hk.QuietLogger{}), mcp.WithKeepAlive(true), mcp.WithKeepAliveInterval(time.Millisecond))
 	srv.RegisterTool(mcp.NewTool("echo", mcp.WithString("nonce")), func(ctx context.Context, req *mcp.CallToolRequest) (*mcp.CallToolResult, error) {
 		n, _ := req.Params.Arguments["nonce"].(string)
+		if strings.HasSuffix(n, "7") {
+			return mcp.NewTextResult("echo:" + n + "\n" + strings.Repeat("lorem ipsum, dolor sit amet; 100% sure, ", 1000)), nil // 40 KiB of prose
+		}
 		return mcp.NewTextResult("echo:" + n + "\nsecond line x"), nil
 	})
 	ts := httptest.NewServer(srv)
